@@ -1,4 +1,5 @@
 import LenaModel.Model.C20
+import LenaModel.Lemmas.C20
 /-! # C20 — property theorems, for all facts
 
 The statements below are about the interpreter of `Model/C20.lean` and hold for **every** `Facts`
@@ -13,14 +14,6 @@ referring to a name that is not defined" is `Safe`: every callable function runs
 i.e. without `NameError` / `AttributeError` on a lena module / `ImportError` for a lena name. -/
 
 namespace Lena.C20
-
-/-! ## evaluation helpers are the identity -/
-
-@[simp] theorem forceNat_eq {α : Sort _} (n : Nat) (k : Nat → α) : forceNat n k = k n := by
-  cases n <;> rfl
-
-@[simp] theorem State.force_eq {α : Sort _} (σ : State) (k : State → α) : σ.force k = k σ := by
-  cases σ; simp [State.force]
 
 /-! ## what a program can do after the import -/
 
@@ -402,5 +395,49 @@ theorem exported_of_resolvesAll (F : Facts) (h : resolvesAll F = true) (e : ModI
   simp only [hP, hall, Option.getD_some, List.all_eq_true, Bool.and_eq_true] at this
   intro n hn
   exact ⟨(this n hn).2, (this n hn).1⟩
+
+/-! ## the interpreter state: `sys.modules` only grows, module values are imported modules
+
+(`Lemmas/C20.lean`: `State.get_set_same`, `State.get_set_other` — the two numbers of the state are
+an array of namespaces; `importMod_stable`, `sys_modules_grow`, `loaded_after_import`.) -/
+
+/-- the invariant `AttrInv` holds in every state a program can reach -/
+theorem reach_attrInv (F : Facts) (e : ModId) (σ₀ σ : State)
+    (h0 : importEntry F e = .ok σ₀) (hr : Reach F σ₀ σ) : AttrInv F σ := by
+  induction hr with
+  | refl => exact importEntry_inv F e _ h0
+  | call _ _ hcall ih => exact callFn_inv F _ _ _ _ ih hcall
+
+/-- **A name bound to a lena module is bound to an imported module** (for all facts, all entry
+points, all call sequences): in every state a program can reach, if some module namespace binds
+a name to the lena module `c` — in particular if the package `lena` has the attribute `flow` —
+then `c` is in `sys.modules`, i.e. somebody has imported it.  This is the rule "`lena.X` exists
+on the package `lena` only after `lena.X` has been imported by someone" of the design. -/
+theorem module_value_is_imported (F : Facts) (e : ModId) (σ₀ σ : State)
+    (h0 : importEntry F e = .ok σ₀) (hr : Reach F σ₀ σ) (p : ModId) (n : Name) (c : ModId)
+    (hg : σ.get F p n = some (.mod c)) : σ.statusOf c ≠ .absent :=
+  reach_attrInv F e σ₀ σ h0 hr p n c hg
+
+/-- the contrapositive, as the property uses it: while `lena.flow` has not been imported, no
+namespace — in particular not the package `lena` — binds any name to it, so the chain
+`lena.flow.…` is an `AttributeError` -/
+theorem not_imported_not_bound (F : Facts) (e : ModId) (σ₀ σ : State)
+    (h0 : importEntry F e = .ok σ₀) (hr : Reach F σ₀ σ) (c : ModId) (hc : σ.statusOf c = .absent)
+    (p : ModId) (n : Name) : σ.get F p n ≠ some (.mod c) :=
+  fun hg => module_value_is_imported F e σ₀ σ h0 hr p n c hg hc
+
+/-- a package `0` with a submodule `1` whose attribute name is `5` -/
+def exampleFacts : Facts :=
+  ⟨[⟨0, none, 4, none, [], []⟩, ⟨1, some 0, 5, none, [.ensure 0, .bind 6], []⟩], [], 3, [], 16, 2⟩
+
+/-- before the import the package has no such attribute; after it the attribute is the module,
+and package and module are in `sys.modules` -/
+example :
+    (decide (State.init.get exampleFacts 0 5 = none) &&
+     (match importMod exampleFacts 3 1 State.init with
+      | .ok σ => decide (σ.get exampleFacts 0 5 = some (.mod 1)) && decide (σ.statusOf 1 = .done) &&
+          decide (σ.statusOf 0 = .done) && decide (σ.get exampleFacts 1 6 = some .obj)
+      | .error _ => false)) = true := by
+  decide
 
 end Lena.C20
